@@ -351,6 +351,9 @@ func runC10(s *kernel.Sim, prop string, focus ...string) {
 	if sameClient {
 		nTasks = 2 + s.Choose("nsame", 3)
 	}
+	// in a third of the runs the burst is built around a node being linked to a wallet (its trial balance moves) while
+	// keep-alives credit and debit it
+	linking := !firstTouch && !sameClient && len(trialNodes) > 0 && s.Choose("linking", 3) == 0
 	var mu sync.Mutex
 	var tasks []*burstTask
 	for t := 0; t < nTasks; t++ {
@@ -362,6 +365,9 @@ func runC10(s *kernel.Sim, prop string, focus ...string) {
 		}
 		if sameClient {
 			k = 0
+		}
+		if linking && t == 0 {
+			k = 8
 		}
 		switch {
 		case k <= 5:
